@@ -116,6 +116,7 @@ TOOL = 5
 _mon_ready = False
 _last = {}
 _steps = [0, 0]  # count, budget
+_tokens = [0]
 
 
 def _line_cb(code, line):
@@ -134,7 +135,13 @@ def _line_cb(code, line):
     except Exception:  # noqa
         pos = -1
     st = (pos, None if d is None else d.eof, zf._buffer_offset, len(zf._buffer))
-    key = (id(zf), line)
+    # a token stored on the object, not id(): a later load in the same call (Memory re-loads the entry it has
+    # just rewritten when mmap_mode is set) may get a new BinaryZlibFile at the address of the freed one
+    tok = zf.__dict__.get("_vf_token")
+    if tok is None:
+        _tokens[0] += 1
+        tok = zf.__dict__["_vf_token"] = _tokens[0]
+    key = (tok, line)
     if _last.get(key) == st and d is not None and d.eof:
         raise Hang("no progress in BinaryZlibFile._fill_buffer: line %d reached twice with state %r" % (line, st))
     _last[key] = st
@@ -261,7 +268,7 @@ def work_file(item):
 # -- Memory part -----------------------------------------------------------------
 
 def work_memory(item):
-    tier, compress = item
+    tier, compress, mmap_mode = item if len(item) == 3 else (item[0], item[1], None)
     _init()
     import joblib
     import importlib.util
@@ -274,7 +281,7 @@ def work_memory(item):
     sys.modules["vf_c14_mod"] = mod
     spec.loader.exec_module(mod)
     want = mod.f(1)
-    mem = joblib.Memory(os.path.join(d, "cache"), verbose=0, compress=compress)
+    mem = joblib.Memory(os.path.join(d, "cache"), verbose=0, compress=compress, mmap_mode=mmap_mode)
     cf = mem.cache(mod.f)
     cf(1)
     outs = []
@@ -298,7 +305,7 @@ def work_memory(item):
             f.write(data)
         import joblib.memory as M
         M._FUNCTION_HASHES.clear()
-        mem2 = joblib.Memory(os.path.join(d, "cache"), verbose=0, compress=compress)
+        mem2 = joblib.Memory(os.path.join(d, "cache"), verbose=0, compress=compress, mmap_mode=mmap_mode)
         cf2 = mem2.cache(mod.f)
         _last.clear()
         _steps[0] = 0
@@ -307,6 +314,9 @@ def work_memory(item):
         try:
             try:
                 got = ("value", cf2(1))
+                again = cf2(1)      # the call after the recomputation sees whatever the recomputation left on disk
+                if again != got[1]:
+                    got = ("value", ("second call", again))
             finally:
                 signal.setitimer(signal.ITIMER_REAL, 0)
         except Hang as e:
@@ -320,15 +330,15 @@ def work_memory(item):
         else:
             k = "memory-call-%s" % (got[0] if got[0] != "value" else "wrong-value")
             outcomes[k] = outcomes.get(k, 0) + 1
-            sig = "%s|compress=%s|%s" % (k, compress, dmg)
+            sig = "%s|compress=%s|%s%s" % (k, compress, dmg, "" if mmap_mode is None else "|mmap_mode")
             if sig not in viols:
-                viols[sig] = [sig, "cached call with output.pkl %s (compress=%s): %r instead of %r" % (detail, compress, got, want),
-                              {"part": "memory", "compress": compress, "damage": detail, "tier": tier}]
+                viols[sig] = [sig, "cached call with output.pkl %s (compress=%s, mmap_mode=%r): %r instead of %r" % (detail, compress, mmap_mode, got, want),
+                              {"part": "memory", "compress": compress, "mmap_mode": mmap_mode, "damage": detail, "tier": tier}]
         # restore a good entry for the next damage
         with open(path, "wb") as f:
             f.write(raw)
     return {"n": n, "viol": list(viols.values()), "outcomes": outcomes, "distinct": n,
-            "sample": {"memory_entry_compress": compress, "damaged_calls": n, "outcomes": outcomes}}
+            "sample": {"memory_entry_compress": compress, "mmap_mode": mmap_mode, "damaged_calls": n, "outcomes": outcomes}}
 
 
 def _dispatch(item):
@@ -346,7 +356,8 @@ def plan(ctx):
             for proto in protos:
                 items.append(("file", (tier, oname, obj, comp, level, proto)))
     for compress in (False, True, ("gzip", 3)) if tier == "quick" else (False, True, 1, ("gzip", 3), ("bz2", 3), ("xz", 3)):
-        items.append(("mem", (tier, compress)))
+        for mm in (None, "r", "c") if tier == "quick" else (None, "r", "r+", "c", "w+"):
+            items.append(("mem", (tier, compress, mm)))
     return items
 
 
@@ -369,7 +380,7 @@ def run(ctx):
     ctx.rule = ("for each (object, compressor, level, protocol) file: every truncation length for files <= 4 KiB, else every "
                 "length within a window around 0, every 8192 multiple, n/2, n/3, pickle frame marks and the end; every "
                 "suffix of {1 byte, 2 bytes, newline, zero byte, 8192 bytes, the file again, its own first half}; the same "
-                "damage on output.pkl of a Memory entry followed by a cached call. distinct_nontrivial = damaged inputs "
+                "damage on output.pkl of a Memory entry (compress x mmap_mode in None/'r'/'c'[/'r+'/'w+']) followed by two cached calls. distinct_nontrivial = damaged inputs "
                 "(all distinct by construction; every one is non-trivial: the file differs from the valid one)")
     ctx.exhaustive = True
     ctx.assumptions += ["termination: no-progress monitor on BinaryZlibFile._fill_buffer + step budget 20x the undamaged load + "
@@ -383,7 +394,7 @@ def replay(data):
     print(data)
     print("re-run `bin/check C14 --tier %s` to re-judge this case" % data.get("tier", "quick"))
     if data.get("part") == "memory":
-        res = work_memory((data.get("tier", "quick"), data["compress"] if not isinstance(data["compress"], list) else tuple(data["compress"])))
+        res = work_memory((data.get("tier", "quick"), data["compress"] if not isinstance(data["compress"], list) else tuple(data["compress"]), data.get("mmap_mode")))
     else:
         obj = dict(objects(data.get("tier", "quick")))[data["object"]]
         res = work_file((data.get("tier", "quick"), data["object"], obj, data["compressor"], data["level"], data["protocol"]))
